@@ -321,6 +321,7 @@ def drop_unused_enumerate(tree):
 def split_tuple_assignments(tree):
     """N8: `a, b = x, y` -> `a = x; b = y` when no target name occurs in a later value (the two forms are then equivalent)"""
     n = [0]
+    fresh = [0]
 
     def names(e):
         return {x.id for x in ast.walk(e) if isinstance(x, ast.Name)}
@@ -354,6 +355,20 @@ def split_tuple_assignments(tree):
                     continue
             if isinstance(s, ast.Assign) and len(s.targets) == 1 and isinstance(s.targets[0], ast.Name) and isinstance(s.value, ast.Name) and s.value.id == s.targets[0].id:
                 continue                      # `x = x` left behind by inlining
+            # N22: `first, *rest = E` / `(a, b), *rest = E`  ->  `u = E; first = u[0]; rest = u[1:]`
+            if isinstance(s, ast.Assign) and len(s.targets) == 1 and isinstance(s.targets[0], (ast.Tuple, ast.List)) and len(s.targets[0].elts) >= 2 \
+                    and isinstance(s.targets[0].elts[-1], ast.Starred) and isinstance(s.targets[0].elts[-1].value, ast.Name) \
+                    and not any(isinstance(x, ast.Starred) for x in s.targets[0].elts[:-1]) and not isinstance(s.value, (ast.Tuple, ast.List)):
+                fresh[0] += 1
+                u = f'_seq__s{fresh[0]}'
+                out.append(ast.copy_location(ast.Assign(targets=[ast.Name(id=u, ctx=ast.Store())], value=s.value), s))
+                lead = s.targets[0].elts[:-1]
+                for i, t in enumerate(lead):
+                    out.append(ast.copy_location(ast.Assign(targets=[t], value=ast.Subscript(value=ast.Name(id=u, ctx=ast.Load()), slice=ast.Constant(value=i), ctx=ast.Load())), s))
+                out.append(ast.copy_location(ast.Assign(targets=[ast.Name(id=s.targets[0].elts[-1].value.id, ctx=ast.Store())],
+                                                        value=ast.Subscript(value=ast.Name(id=u, ctx=ast.Load()), slice=ast.Slice(lower=ast.Constant(value=len(lead)), upper=None, step=None), ctx=ast.Load())), s))
+                n[0] += 1
+                continue
             out.append(s)
         return out or [ast.Pass()]
     for node in ast.walk(tree):
@@ -576,12 +591,53 @@ def flatten_starred_displays(tree):
 
         def visit_Subscript(self, node):
             self.generic_visit(node)
+            # N23: `x[a:][k]` is `x[a + k]` (non-negative constants)
+            if isinstance(node.ctx, ast.Load) and isinstance(node.slice, ast.Constant) and isinstance(node.slice.value, int) and not isinstance(node.slice.value, bool) and node.slice.value >= 0 \
+                    and isinstance(node.value, ast.Subscript) and isinstance(node.value.slice, ast.Slice) and node.value.slice.upper is None and node.value.slice.step is None \
+                    and isinstance(node.value.slice.lower, ast.Constant) and isinstance(node.value.slice.lower.value, int) and node.value.slice.lower.value >= 0:
+                count[0] += 1
+                return ast.copy_location(ast.Subscript(value=node.value.value, slice=ast.Constant(value=node.value.slice.lower.value + node.slice.value), ctx=ast.Load()), node)
             # N21: `(a, b)[1]` is b
             if isinstance(node.ctx, ast.Load) and isinstance(node.value, (ast.Tuple, ast.List)) and isinstance(node.slice, ast.Constant) and isinstance(node.slice.value, int) \
                     and not isinstance(node.slice.value, bool) and not any(isinstance(e, ast.Starred) for e in node.value.elts) and -len(node.value.elts) <= node.slice.value < len(node.value.elts) \
                     and not any(isinstance(x, ast.Call) for e in node.value.elts for x in ast.walk(e)):
                 count[0] += 1
                 return node.value.elts[node.slice.value]
+            return node
+
+        def _truth(self, e):
+            # N24: a tail slice `x[a:]` used as a truth value is `a < len(x)`
+            if isinstance(e, ast.Subscript) and isinstance(e.slice, ast.Slice) and e.slice.upper is None and e.slice.step is None and isinstance(e.slice.lower, ast.Constant) \
+                    and isinstance(e.slice.lower.value, int) and e.slice.lower.value >= 0:
+                count[0] += 1
+                return ast.copy_location(ast.Compare(left=ast.Constant(value=e.slice.lower.value), ops=[ast.Lt()],
+                                                     comparators=[ast.Call(func=ast.Name(id='len', ctx=ast.Load()), args=[e.value], keywords=[])]), e)
+            return e
+
+        def visit_If(self, node):
+            self.generic_visit(node)
+            node.test = self._truth(node.test)
+            return node
+
+        def visit_While(self, node):
+            self.generic_visit(node)
+            node.test = self._truth(node.test)
+            return node
+
+        def visit_IfExp(self, node):
+            self.generic_visit(node)
+            node.test = self._truth(node.test)
+            return node
+
+        def visit_BoolOp(self, node):
+            self.generic_visit(node)
+            node.values = [self._truth(v) for v in node.values]
+            return node
+
+        def visit_UnaryOp(self, node):
+            self.generic_visit(node)
+            if isinstance(node.op, ast.Not):
+                node.operand = self._truth(node.operand)
             return node
 
         def visit_Call(self, node):
